@@ -20,8 +20,13 @@ import (
 	"github.com/cosmos/cosmos-sdk/baseapp"
 	sdk "github.com/cosmos/cosmos-sdk/types"
 
+	"crypto/sha256"
+	"encoding/hex"
 	"github.com/kava-labs/kava/app"
+	"io"
 	"kavaverif/drivers/world"
+	"os/exec"
+	"path/filepath"
 )
 
 func init() { Registry["C01"] = run }
@@ -30,6 +35,7 @@ type hist struct {
 	Seed   uint64 `json:"seed"`
 	Idx    int    `json:"history"`
 	Blocks int    `json:"blocks"`
+	Zone   bool   `json:"zone,omitempty"` // replay through the local-time-zone child (zoneStream)
 }
 
 type divergence struct {
@@ -118,13 +124,25 @@ func knownStream(seed uint64, cnt *Counters) *divergence {
 	return nil
 }
 
-func runHistory(seed uint64, idx, nBlocks int, cnt *Counters) (*divergence, int, int, []string) {
+// runHistory executes one history on the three replicas.  When dg is not nil the results of
+// replica A (app hash, event digests, validator updates, every tx result) are written to it
+// block by block: the digest of a history is what a process in another environment
+// (local time zone, see zoneStream) must reproduce bit for bit.
+func runHistory(seed uint64, idx, nBlocks int, cnt *Counters, dg io.Writer, genIO ...*[]byte) (*divergence, int, int, []string) {
 	r := NewRng(seed, uint64(idx))
 	cfg := world.RandomConfig(r)
 	NewApp() // sets sdk config once
 	wA := world.NewWorld(cfg, seed*1000+uint64(idx), cnt)
+	// genIO[0]: in/out slot for the genesis bytes (the test helper draws a random validator
+	// key, so a second process must be handed the genesis to reproduce the history)
+	if len(genIO) > 0 && *genIO[0] != nil {
+		wA.GenBytes = *genIO[0]
+	}
 	A := wA.Start(NewApp())
 	gen := wA.GenesisBytes(A)
+	if len(genIO) > 0 {
+		*genIO[0] = gen
+	}
 	wB := world.NewWorld(cfg, seed*1000+uint64(idx), nil)
 	// replica B runs with different node-local options
 	B := wB.StartFrom(newAppWith(tmdb.NewMemDB(), nodeLocalOptions(wA)), gen, world.Genesis0)
@@ -145,6 +163,9 @@ func runHistory(seed uint64, idx, nBlocks int, cnt *Counters) (*divergence, int,
 		ra := world.Deliver(A, height, txs)
 		rb := world.Deliver(B, height, txs)
 		rc := world.Deliver(C, height, txs)
+		if dg != nil {
+			dg.Write(MustJSON(ra))
+		}
 		for i, tr := range ra.Txs {
 			nTx++
 			if tr.Code == 0 {
@@ -191,6 +212,9 @@ func runHistory(seed uint64, idx, nBlocks int, cnt *Counters) (*divergence, int,
 		height++
 		t = t.Add(world.NextGap(r))
 		sa, pa := world.Begin(A, height, t)
+		if dg != nil {
+			dg.Write([]byte(sa + "|" + pa))
+		}
 		sb, pb := world.Begin(B, height, t)
 		sc, pc := world.Begin(C, height, t)
 		if sa != sb || pa != pb {
@@ -217,6 +241,13 @@ func run(o Opts) (*Result, error) {
 	res := &Result{Property: "C01", Seed: o.Seed,
 		Rule: fmt.Sprintf("multi-module histories of %d blocks (1-6 signed txs each over cdp, hard, swap, savings, earn, bep3, pricefeed, auction, incentive, staking, liquid, gov, committee, issuance, bank; block gaps 1ns..20d) executed on replica A, independent replica B and replica C re-opened from its database at random heights; non-trivial when at least 5 transactions succeeded and C was re-opened at least once; distinct by (seed, history index)", nBlocks)}
 	cnt := NewCounters()
+	if os.Getenv(zoneChildEnv) != "" {
+		// child of zoneStream: this process runs with a non-UTC local time zone (set in init);
+		// it only reports the digests of the first o.N histories
+		res.Extra = map[string]any{"zone_digests": historyDigests(o.Seed, o.N, nBlocks, o.Workers, o.OutDir)}
+		res.Histories = o.N
+		return res, nil
+	}
 	if o.Replay != "" {
 		bz, err := os.ReadFile(o.Replay)
 		if err != nil {
@@ -236,7 +267,17 @@ func run(o Opts) (*Result, error) {
 			res.Histories, res.Evaluations = 1, 1
 			return res, nil
 		}
-		dv, nTx, _, _ := runHistory(h.Seed, h.Idx, h.Blocks, cnt)
+		if h.Zone {
+			o2 := o
+			o2.Seed, o2.N = h.Seed, h.Idx+1
+			if f := zoneStream(o2, h.Blocks, cnt, h.Idx); f != nil {
+				res.Failures = append(res.Failures, *f)
+			}
+			res.Histories, res.Evaluations = 1, 1
+			res.Counters = cnt.Map()
+			return res, nil
+		}
+		dv, nTx, _, _ := runHistory(h.Seed, h.Idx, h.Blocks, cnt, nil)
 		res.Histories, res.Evaluations = 1, nTx
 		if dv != nil {
 			res.Failures = append(res.Failures, Failure{History: h.Idx, Step: int(dv.Height), Predicate: "replicas-agree", Signature: "replica-divergence:" + dv.What, Detail: string(MustJSON(dv)), Replay: MustJSON(h)})
@@ -252,13 +293,16 @@ func run(o Opts) (*Result, error) {
 	outs := make([]out, o.N)
 	start := time.Now()
 	ParallelFor(o.N, o.Workers, func(i int) {
-		dv, nTx, ok, sample := runHistory(o.Seed, i, nBlocks, cnt)
+		dv, nTx, ok, sample := runHistory(o.Seed, i, nBlocks, cnt, nil)
 		outs[i] = out{dv, nTx, ok, sample}
 	})
 	_ = start
 	if dv := knownStream(o.Seed, cnt); dv != nil {
 		res.Failures = append(res.Failures, Failure{History: -1, Step: 3, Predicate: "replicas-agree", Signature: "restart-validatebasic-gas-leak",
-			Detail: string(MustJSON(dv)), Replay: MustJSON(hist{o.Seed, -1, 2})})
+			Detail: string(MustJSON(dv)), Replay: MustJSON(hist{o.Seed, -1, 2, false})})
+	}
+	if f := zoneStream(o, nBlocks, cnt, -1); f != nil {
+		res.Failures = append(res.Failures, *f)
 	}
 	for i, ot := range outs {
 		res.Histories++
@@ -271,9 +315,97 @@ func run(o Opts) (*Result, error) {
 		}
 		if ot.dv != nil {
 			res.Failures = append(res.Failures, Failure{History: i, Step: int(ot.dv.Height), Predicate: "replicas-agree", Signature: "replica-divergence:" + ot.dv.What,
-				Detail: string(MustJSON(ot.dv)), Replay: MustJSON(hist{o.Seed, i, nBlocks})})
+				Detail: string(MustJSON(ot.dv)), Replay: MustJSON(hist{o.Seed, i, nBlocks, false})})
 		}
 	}
 	res.Counters = cnt.Map()
 	return res, nil
+}
+
+// ---------------------------------------------------------------- local time zone
+
+// The property's replicas may run on machines with different local time zones.  A
+// time.Time built with time.Unix carries the process-local zone, and some encodings
+// (time.MarshalBinary, amino) write the zone offset: such a value in a store makes the
+// app hash depend on the node's environment.  Replicas inside one process share
+// time.Local, so the stream re-executes the first histories in a CHILD process whose
+// local zone is UTC+05:45 (set in init, before anything runs) and compares digests of
+// replica A's per-block results with this process (UTC).
+const zoneChildEnv = "KVH_C01_ZONE_CHILD"
+
+func init() {
+	if os.Getenv(zoneChildEnv) == "1" {
+		time.Local = time.FixedZone("verif+0545", 5*3600+45*60)
+	}
+}
+
+// historyDigests: gendir holds gen_<i>.json per history; read when present, written otherwise
+func historyDigests(seed uint64, n, nBlocks, workers int, gendir string) []string {
+	out := make([]string, n)
+	_ = os.MkdirAll(gendir, 0o755)
+	ParallelFor(n, workers, func(i int) {
+		h := sha256.New()
+		gf := filepath.Join(gendir, fmt.Sprintf("gen_%d.json", i))
+		gen, err := os.ReadFile(gf)
+		had := err == nil
+		if !had {
+			gen = nil
+		}
+		runHistory(seed, i, nBlocks, nil, h, &gen)
+		if !had {
+			if err := os.WriteFile(gf, gen, 0o644); err != nil {
+				panic(err)
+			}
+		}
+		out[i] = hex.EncodeToString(h.Sum(nil))
+	})
+	return out
+}
+
+// only >= 0: compare that history alone (replay)
+func zoneStream(o Opts, nBlocks int, cnt *Counters, only int) *Failure {
+	k := 6
+	if o.Tier == "thorough" {
+		k = 48
+	}
+	if k > o.N || only >= 0 {
+		k = o.N
+	}
+	if k == 0 {
+		return nil
+	}
+	exe, err := os.Executable()
+	if err != nil {
+		return nil
+	}
+	dir := filepath.Join(o.OutDir, "zone_child")
+	mine := historyDigests(o.Seed, k, nBlocks, o.Workers, dir)
+	cmd := exec.Command(exe, "-seed", fmt.Sprint(o.Seed), "-n", fmt.Sprint(k), "-len", fmt.Sprint(nBlocks), "-out", dir, "-tier", o.Tier)
+	cmd.Env = append(os.Environ(), zoneChildEnv+"=1")
+	if outb, err := cmd.CombinedOutput(); err != nil {
+		panic(fmt.Sprintf("zone child failed: %v\n%s", err, outb))
+	}
+	bz, err := os.ReadFile(filepath.Join(dir, "result.json"))
+	if err != nil {
+		panic(err)
+	}
+	var cr Result
+	if err := json.Unmarshal(bz, &cr); err != nil {
+		panic(err)
+	}
+	raw, _ := json.Marshal(cr.Extra["zone_digests"])
+	var child []string
+	_ = json.Unmarshal(raw, &child)
+	cnt.Add("zone-stream:histories", k)
+	for i := range mine {
+		if only >= 0 && i != only {
+			continue
+		}
+		if i >= len(child) || child[i] != mine[i] {
+			return &Failure{History: i, Step: 0, Predicate: "replicas-agree", Signature: "replica-divergence:local-time-zone",
+				Detail: fmt.Sprintf("history %d gives different per-block results (app hash / events / tx results) in a process whose local time zone is UTC+05:45 than in a UTC process: digest %s vs %s", i, mine[i], child[i]),
+				Replay: MustJSON(hist{o.Seed, i, nBlocks, true})}
+		}
+	}
+	return nil
 }
